@@ -365,6 +365,9 @@ def main():
       SYN = ["QDense", "QConv2D", "QActivation", "Dense", "QDepthwiseConv2D", "Add", "Multiply", "Subtract", "AveragePooling2D",
              "GlobalAveragePooling2D", "BatchNormalization", "Flatten"]
       cls_name = SYN[(mi * 5 + li * 7 + int(rng.integers(0, 2))) % len(SYN)]     # rotation: every class in every run
+      if li == 0:
+        # the class each non-shipped cost setting has a special (empty / partial) rule for is always present in the maps judged with it
+        cls_name = {1: "QActivation", 2: "Dense", 3: "QDepthwiseConv2D"}.get(mi % 4, cls_name)
       wq = qf.make_quantizer(Q.quantized_bits(int(rng.integers(2, 9)), 0, 1))
       iq = qf.make_quantizer(rng.choice([Q.quantized_relu(int(rng.integers(2, 9)), 1), Q.quantized_bits(8, 0, 1), None]))
       oq = qf.make_quantizer(Q.quantized_relu(int(rng.integers(2, 9)), 1))
